@@ -295,6 +295,8 @@ def project(events, sc, tso=1):
         elif op in ("rlock", "runlock"):
             if not ishelper and not isworker and not inres.get(t):
                 ev(tt, op)
+        elif op in ("online", "offline"):
+            ev(tt, op)
         elif op in ("balloc", "bfree"):
             ev(tt, op, "order", num(e.get("a")))
         elif op in ("walloc", "wfree"):
